@@ -29,9 +29,11 @@ template <class T> static void table (const char* path)
         Euler<T> g (o); g.setXYZVector (Vec3<T> (10, 20, 30));
         Euler<T> h; h.setOrder (o);
         Vec3<T> back = f.toXYZVector ();
-        printf ("{\"e\":\"order\",\"t\":\"%s\",\"code\":%d,\"legal\":%d,\"order\":%d,\"order2\":%d,\"static\":%d,\"repeated\":%d,\"even\":%d,\"axis\":%d,"
+        // set(axis, relative, parityEven, firstRepeats) with the four components the spec derives from the code
+        Euler<T> viaSet; viaSet.set ((typename Euler<T>::Axis) ((code >> 12) & 3), (code & 1) == 0, (code & 0x100) != 0, (code & 0x10) != 0);
+        printf ("{\"e\":\"order\",\"t\":\"%s\",\"setord\":%d,\"setargs\":[%d,%d,%d,%d],\"code\":%d,\"legal\":%d,\"order\":%d,\"order2\":%d,\"static\":%d,\"repeated\":%d,\"even\":%d,\"axis\":%d,"
                 "\"ao\":[%d,%d,%d],\"am\":[%d,%d,%d],\"slots\":[%d,%d,%d],\"toxyz\":[%d,%d,%d],\"ctorxyz\":[%d,%d,%d],\"ctorxyz3\":[%d,%d,%d],\"setxyz\":[%d,%d,%d],\"back\":[%d,%d,%d]}\n",
-                tg<T> (), code, (int) Euler<T>::legal (o), (int) e.order (), (int) h.order (), (int) e.frameStatic (), (int) e.initialRepeated (), (int) e.parityEven (),
+                tg<T> (), (int) viaSet.order (), (code >> 12) & 3, (int) ((code & 1) == 0), (int) ((code & 0x100) != 0), (int) ((code & 0x10) != 0), code, (int) Euler<T>::legal (o), (int) e.order (), (int) h.order (), (int) e.frameStatic (), (int) e.initialRepeated (), (int) e.parityEven (),
                 (int) e.initialAxis (), ai, aj, ak, mi, mj, mk, (int) e.x, (int) e.y, (int) e.z, (int) xyz.x, (int) xyz.y, (int) xyz.z, (int) f.x, (int) f.y, (int) f.z, (int) f3.x, (int) f3.y, (int) f3.z,
                 (int) g.x, (int) g.y, (int) g.z, (int) back.x, (int) back.y, (int) back.z);
     }
